@@ -2,6 +2,7 @@ import RsModel.Model.Composite
 import RsModel.Lemmas.AttrTree
 import RsModel.Lemmas.ReplaceKeeps
 import RsModel.Lemmas.ReplaceAdvance
+import RsModel.Lemmas.WellDeclDecl
 /-!
 # C06 — composites preserve what their children attribute
 (the index-translation tables every composite relies on; attribution itself is tied by correspondence)
@@ -67,6 +68,13 @@ theorem c06_concat_well_declared (cons : Text → Option Text) (children : List 
 theorem c06_concat_tree (cons : Text → Option Text) (c : Bool) (cs : SrcList) (h : SrcList.WD cons c cs) (σ : Store) :
     (Src.concat cs).attr c σ = ((cs.streams ⟨c, false⟩ σ).1.map fun r => attrN emptyS emptyN r.evs).flatten :=
   Src.attr_concat cons c cs h σ
+
+/-- a ReplaceSource child is covered by the law: it keeps "announced before use, densely" (C11) and passes the announcements of its
+inner stream through unchanged, so it is well declared whenever its inner tree is -/
+theorem c06_replace_well_declared (cons : Text → Option Text) (sorted : List Repl) (inner : SResult)
+    (hw : WellDecl cons emptyS emptyN inner.evs) (hd : DeclOK 0 0 inner.evs) :
+    WellDecl cons emptyS emptyN (replaceStream sorted inner).evs :=
+  replaceStream_wellDecl cons sorted inner hw hd
 
 /-- the hypotheses are satisfiable: two OriginalSources with different names and a RawSource -/
 example : SrcList.WD (fun n => if n = [97] then some [120, 10, 121] else some [122]) true
